@@ -108,6 +108,17 @@ def metric_fn(spec, dim):
         m12 = c * s * (lx - ly)
         m22 = s * s * lx + c * c * ly
         return lambda p: (m11, m12, 0.0, m22, 0.0, lz if dim == 3 else 1.0)
+    if kind == 'loglin':  # log M linear in space: M(p) = exp(2 g.p) * R diag(1/h^2) R^T (2-D: m33 stays 1)
+        import math
+        hx, hy, hz, th, gx, gy, gz = a
+        c, s = math.cos(th), math.sin(th)
+        lx, ly, lz = 1 / hx ** 2, 1 / hy ** 2, 1 / hz ** 2
+
+        def f(pt):
+            sc = math.exp(2.0 * (gx * pt[0] + gy * pt[1] + (gz * pt[2] if dim == 3 else 0.0)))
+            return (sc * (c * c * lx + s * s * ly), sc * (c * s * (lx - ly)), 0.0, sc * (s * s * lx + c * c * ly), 0.0,
+                    sc * lz if dim == 3 else 1.0)
+        return f
     raise ValueError('metric ' + spec)
 
 
@@ -212,7 +223,7 @@ def oracle_adapt_metric(ops, impl):
                 ev = oracles.eig_sym3((m[0], m[1], 0.0, m[3], 0.0, m[3]))  # ignore the embedded 1
             lo, hi = min(lo, ev[0]), max(hi, ev[-1])
         f = metric_fn(d.get('metric', 'uniform:0.3'), dim)
-        exact = d.get('metric', 'uniform').split(':')[0] in ('uniform', 'aniso', 'rot')
+        exact = d.get('metric', 'uniform').split(':')[0] in ('uniform', 'aniso', 'rot', 'loglin')
         for n, row in enumerate(so['values']):
             m = meshgen.solb_metric_unrow(row, dim)
             if dim == 2:
@@ -229,7 +240,8 @@ def oracle_adapt_metric(ops, impl):
                 refrow = meshgen.solb_metric_row(ref, dim)
                 sc = max(abs(x) for x in refrow)
                 if max(abs(a - b) for a, b in zip(row, refrow)) > 1e-7 * sc:
-                    bad.append((i, 'C05 constant input metric not reproduced at vertex %d: %s vs %s' % (n, row, refrow)))
+                    bad.append((i, 'C05 %s input metric not reproduced at vertex %d %s: %s vs %s' % (
+                        'log-linear' if d.get('metric', '').startswith('loglin') else 'constant', n, tuple(p), row, refrow)))
                     break
     return bad
 
